@@ -92,11 +92,13 @@ def finish(res, tier, seed, t0, extra_cmd=""):
             known_printed.append(f.key)
         else:
             violations.append(f)
-    os.makedirs(os.path.join(VERIF, "evidence", "replay"), exist_ok=True)
+    # the registered commands write /verif/evidence; the self-test tools redirect theirs with QV_EVIDENCE_DIR
+    EVD = os.environ.get("QV_EVIDENCE_DIR") or os.path.join(VERIF, "evidence")
+    os.makedirs(os.path.join(EVD, "replay"), exist_ok=True)
     code = 0
     if violations:
         code = 1
-        rp = os.path.join(VERIF, "evidence", "replay", "%s.json" % res.prop)
+        rp = os.path.join(EVD, "replay", "%s.json" % res.prop)
         with open(rp, "w") as fh:
             json.dump({"property": res.prop, "violations": [f.to_json() for f in violations]}, fh, indent=1)
         for f in violations:
@@ -134,6 +136,6 @@ def finish(res, tier, seed, t0, extra_cmd=""):
         "wall_s": round(time.time() - t0, 3),
         "violations": len(violations),
     }
-    with open(os.path.join(VERIF, "evidence", "%s.json" % res.prop), "w") as fh:
+    with open(os.path.join(EVD, "%s.json" % res.prop), "w") as fh:
         json.dump(ev, fh, indent=1, sort_keys=False)
     return code
